@@ -7,6 +7,6 @@ rm -rf $dir; git -C /repo worktree prune; git -C /repo worktree add -q --detach 
 cd /verif
 for c in "$@"; do
   out=$(VERIF_REPO=$dir VERIF_SEED=${VERIF_SEED:-1} ./check $c --tier quick 2>&1); rc=$?
-  echo "$n: $c exit=$rc violations=$(echo "$out" | grep -c '^VIOLATION')"
+  echo "$n: $c exit=$rc violations=$(echo "$out" | grep -c '^VIOLATION') $(echo "$out" | grep '^VIOLATION' | head -2 | sed 's/^[^[]*\(\[[^]]*\]\).*/\1/' | tr '\n' ' ' | cut -c1-160)"
 done
 git -C /repo worktree remove --force $dir
